@@ -18,6 +18,33 @@ ENV = dict(os.environ, PYTHONPATH=os.pathsep.join([REPO] + [x for x in [os.envir
            SIMPLELINE_VERIF="1")
 
 
+class Hang(BaseException):
+    """The implementation did not come back from one call within the time limit (see time_limit)."""
+
+
+import contextlib as _contextlib, signal as _signal, threading as _threading
+
+
+@_contextlib.contextmanager
+def time_limit(seconds):
+    """Wall-clock limit for ONE in-process call into /repo (main thread only): a change that makes the library loop for ever
+    on some input must end in a reported failure for that input, never in a check that hangs.  Raises Hang (a
+    BaseException, so that no `except Exception` of the library swallows it)."""
+    if _threading.current_thread() is not _threading.main_thread():
+        yield
+        return
+
+    def on_alarm(signum, frame):
+        raise Hang()
+    old = _signal.signal(_signal.SIGALRM, on_alarm)
+    _signal.setitimer(_signal.ITIMER_REAL, seconds)
+    try:
+        yield
+    finally:
+        _signal.setitimer(_signal.ITIMER_REAL, 0)
+        _signal.signal(_signal.SIGALRM, old)
+
+
 def stop_proc(p):
     """End a worker subprocess: kill it.  Development only (VERIF_GRACEFUL=1, line-coverage measurement): close its
     stdin first and give it a moment to end by itself so that its coverage data is written."""
